@@ -29,6 +29,13 @@ def gen(rng, tier):
             for ref in [None] + levels + ["not-a-level"]:
                 for spans in ("reduced", "full"):
                     cases.append({"kind": "direct", "enc": enc, "ref": ref, "spans": spans, "levels": levels})
+    # levels that are falsy Python values (0, "") are levels like any other
+    for levels in ([-1, 0, 1], [2, 1, 0], [0, 1], [3, 0, 7, 5], ["", "a", "b"], ["b", "", "a"]):
+        for enc in ("treatment", "sum"):
+            for ref in [None] + list(levels):
+                for spans in ("reduced", "full"):
+                    cases.append({"kind": "direct", "enc": enc, "ref": ref, "spans": spans, "levels": levels,
+                                  "raw_levels": True})
     perms = list(itertools.permutations(["a", "b", "c", "d"][:4]))
     for k in (2, 3, 4, 5):
         lv = ["a", "b", "c", "d", "e"][:k]
@@ -55,7 +62,8 @@ def describe(c, mo, obs):
 def model_cmd(c):
     import core
     if c["kind"] == "direct":
-        return core.sshow(["code", c["enc"], [] if c["ref"] is None else c["ref"], c["spans"], c["levels"]])
+        return core.sshow(["code", c["enc"], [] if c["ref"] is None else str(c["ref"]), c["spans"],
+                           [str(x) for x in c["levels"]]])
     f, fr, extra = _design_case(c)
     return dm.design_cmd({"formula": f, "frame": fr, "extra": extra})
 
@@ -187,18 +195,18 @@ def oracle(c):
         if c["enc"] == "treatment":
             r = 0 if ref is None else levels.index(ref)
             kept = levels[:r] + levels[r + 1:]
-            if list(red.labels) != kept:
+            if list(red.labels) != [str(x) for x in kept]:
                 return f"treatment labels {red.labels}, expected {kept} (reference {levels[r]!r})"
             for j, l in enumerate(kept):
                 want = [1 if x == l else 0 for x in levels]
                 if [int(v) for v in R[:, j]] != want:
                     return f"treatment column {l!r} is not the indicator of that level (n={n}, reference {levels[r]!r})"
-            if list(full.labels) != levels or not np.array_equal(Fm, np.eye(n)):
+            if list(full.labels) != [str(x) for x in levels] or not np.array_equal(Fm, np.eye(n)):
                 return "full treatment coding is not the identity"
         else:
             o = n - 1 if ref is None else levels.index(ref)
             kept = levels[:o] + levels[o + 1:]
-            if list(red.labels) != kept:
+            if list(red.labels) != [str(x) for x in kept]:
                 return f"sum labels {red.labels}, expected {kept}"
             if n > 1 and any(int(s) != 0 for s in R.sum(axis=0)):
                 return f"sum coding columns do not add up to zero (n={n}, omit {levels[o]!r})"
